@@ -79,9 +79,81 @@ CASES = [
     ("{a: 1}.get(b, 2)", {"a": "small", "b": "small"}), ("a in [b, 3]", {"a": "small", "b": "small"}),
     ("[v for v in [a, b, 7] if v > 0]", {"a": "small", "b": "small"}), ("any(v > 5 for v in [a, b])", {"a": "small", "b": "small"}),
     ("list(filter(None, [a & 1, a & 2, a & 4]))", {"a": "u8"}), ("len({a, b})", {"a": "small", "b": "small"}),
+    # statements
+    ("h_remove_while_iterating(a, b, c)", {"a": "small", "b": "small", "c": "small"}), ("h_append_while_iterating(a, b)", {"a": "small", "b": "small"}),
+    ("h_dict_changed(a, b)", {"a": "pos", "b": "pos"}), ("h_try_finally(a)", {"a": "small"}), ("h_default_arg(a)", {"a": "small"}),
+    ("h_closure(a, b)", {"a": "small", "b": "small"}), ("h_while_break(a)", {"a": "pos"}),
     # array (host byte order)
     ("array('q', [a]).tobytes()", {"a": "i64"}), ("array('B', [f, a]).tobytes()", {"f": "bool", "a": "u8"}),
 ]
+
+
+# statement-level semantics (helpers are run by CPython for the expected value and by the engine for the claimed one)
+def h_remove_while_iterating(a, b, c):
+    lst, seen = [a, b, c], []
+    for x in lst:
+        seen.append(x)
+        lst.remove(x)
+    return seen, lst
+
+
+def h_append_while_iterating(a, b):
+    lst, n = [a, b], 0
+    for x in lst:
+        n += 1
+        if len(lst) < 5:
+            lst.append(x + 1)
+    return n, lst
+
+
+def h_dict_changed(a, b):
+    d = {a: 1, b + 100: 2}
+    try:
+        for k in d:
+            d[k + 1000] = 0
+    except RuntimeError:
+        return "RuntimeError"
+    return sorted(d)
+
+
+def h_try_finally(a):
+    out = []
+    try:
+        if a > 0:
+            raise ValueError
+        out.append("body")
+    except ValueError:
+        out.append("except")
+    else:
+        out.append("else")
+    finally:
+        out.append("finally")
+    return out
+
+
+def h_default_arg(a, acc=None):
+    acc = [] if acc is None else acc
+    acc.append(a)
+    return acc
+
+
+def h_closure(a, b):
+    def add(x):
+        return x + b
+    return [add(v) for v in (a, a + 1)]
+
+
+def h_while_break(a):
+    n = 0
+    while True:
+        n += 1
+        if n * n > a:
+            break
+    return n
+
+
+HELPERS = {f.__name__: f for f in (h_remove_while_iterating, h_append_while_iterating, h_dict_changed, h_try_finally, h_default_arg,
+                                   h_closure, h_while_break)}
 
 
 def ev(thunk):
@@ -94,7 +166,7 @@ for _expr, _kinds in CASES:
     for _s in range(N_SAMPLES):
         _vals = {v: GEN[k]() for v, k in _kinds.items()}
         try:
-            _expected = eval(_expr, {"struct": struct, "array": array, "hexlify": hexlify, "unhexlify": unhexlify}, dict(_vals))  # noqa: S307
+            _expected = eval(_expr, {"struct": struct, "array": array, "hexlify": hexlify, "unhexlify": unhexlify, **HELPERS}, dict(_vals))  # noqa: S307
             _exc = None
         except Exception as _e:  # noqa: BLE001
             _expected, _exc = None, type(_e).__name__
